@@ -27,7 +27,7 @@ MISMATCH_BITS = {1: "refusal", 2: "region lines", 4: "collector sets", 8: "args"
                  32: "resulting program", 64: "Flow semantics vs CPython (original)",
                  128: "Flow semantics of the model's result vs CPython on rope's result",
                  256: "outline_ok holds but the model's result behaves differently"}
-SWITCHES = ["restore", "balanced", "killnest", "readmaybe", "loopall", "globalargs", "loopprew"]
+SWITCHES = ["restore", "balanced", "killnest", "readmaybe", "loopall", "globalargs", "loopprew", "compiter"]
 CONDS = ((1, "arg-missing"), (2, "arg-maybe-unbound"), (4, "result-missing"), (8, "result-maybe-unbound"),
          (16, "shape"))
 
@@ -35,7 +35,7 @@ CONDS = ((1, "arg-missing"), (2, "arg-maybe-unbound"), (4, "result-missing"), (8
 def decode_class(cls):
     """-> (d0, switch set as list of names, kind) from Runner.classify."""
     d0, rest = cls % 32, cls // 32
-    return d0, [n for k, n in enumerate(SWITCHES) if (rest % 128) >> k & 1], rest // 128
+    return d0, [n for k, n in enumerate(SWITCHES) if (rest % 256) >> k & 1], rest // 256
 
 
 def class_name(cls):
@@ -187,16 +187,25 @@ def coq_eval(ctx, records, shard=150):
     for s in range(0, len(records), shard):
         terms = [rec["term"] for rec in records[s:s + shard]]
         bodies.append(HEADER + "Definition cases : list case := [\n%s].\nEval vm_compute in (mismatches cases).\n"
-                      "Eval vm_compute in (classes cases).\nEval vm_compute in [count_static cases; static_contradictions cases].\n"
+                      "Eval vm_compute in (classes cases).\nEval vm_compute in [count_static cases; static_contradictions cases; count_if_domain cases].\n"
+                      "Eval vm_compute in (if_domain_counterexamples cases).\n"
                       % ";\n".join(terms))
     outs = ctx.coq_files_parallel(bodies)
     for si, out in enumerate(outs):
         pairs = ctx.parse_pairs(out)
         mism = dict(pairs[0]) if pairs else {}
         nums = ctx.parse_nums(out)
-        cls = nums[-2] if len(nums) >= 2 else []
-        ctx.extra["cases_in_static_theorem_domain"] = ctx.extra.get("cases_in_static_theorem_domain", 0) + nums[-1][0]
-        if nums[-1][1]:
+        cls = nums[-3] if len(nums) >= 3 else []
+        stat, cex = nums[-2], nums[-1]
+        ctx.extra["cases_in_static_theorem_domain"] = ctx.extra.get("cases_in_static_theorem_domain", 0) + stat[0]
+        ctx.extra["cases_in_conjectured_if_class"] = ctx.extra.get("cases_in_conjectured_if_class", 0) + stat[2]
+        for k in cex:
+            rec = records[si * shard + k]
+            ctx.violation(dict(replay_obj(rec), broken="the conjectured class Sufficient.side_C03_if contains a case whose "
+                               "collector args/returns violate outline_ok: the stated exclusion is not exact"),
+                          "C03: counterexample to the conjectured class side_C03_if, lines %d-%d of\n%s" % (
+                              rec["first"], rec["last"], rec["h"].src), no_input=True)
+        if stat[1]:
             ctx.violation({"kind": "static-contradiction", "broken": "a case inside side_C03 does not satisfy outline_ok: "
                            "contradicts C03_collector_sufficient_partial (model or Coq build inconsistent)"},
                           "C03: case inside side_C03 violates outline_ok", no_input=True)
@@ -419,6 +428,17 @@ KNOWN = [
      "host": {"pos": "module", "params": [], "body": [
          ["assign", "x", K(1)], ["assign", "x", ["b", "+", V("x"), K(1)]]]},
      "path": [], "i": 1, "j": 2, "vecs": [[]]},
+    {"id": "C03-comprehension-iterable", "fixed": ("98267e1", "a name read in the iterable of a comprehension whose loop "
+                                                   "variable has the same spelling was dropped from the read set and not "
+                                                   "passed to the new function (NameError)"),
+     "defect": "compiter", "witness": "w_compiter",
+     "lemma": "C03_comprehension_iterable_refuted",
+     "title": "extract: a name read in the iterable of a comprehension whose loop variable has the same spelling is "
+              "dropped from the read set when the comprehension is left; it is not passed to the new function",
+     "host": {"pos": "function", "params": ["a"], "body": [
+         ["assign", "x", V("a")],
+         ["print", ["sum", "a", V("a"), ["b", "+", V("a"), V("x")], "list"]]]},
+     "path": [], "i": 1, "j": 2, "vecs": [[2], [1], [0]]},
     {"id": "C03-arg-maybe-unbound", "defect": "maybe-unbound", "witness": "w_argunbound", "lemma": "C03_arg_maybe_unbound_refuted",
      "title": "extract: a name that is only conditionally bound before (or in) the region is passed / returned; "
               "the call or the return raises although the original code never read the name",
@@ -436,6 +456,32 @@ KNOWN_VARIABLE = {
                "source": "def f(a):\n    x = 0\n    while x < a + 1:\n        x += 1\n        a -= 1\n    return x\n",
                "line": 3, "cols": [14, 19], "vecs": [[3], [0], [5]], "class": "variable:while-condition"},
 }
+
+_COMP_SRC = "def f(a):\n    x = sum([i + a for i in range(3)])\n    return x\n"
+KNOWN_EXPR = [
+    KNOWN_VARIABLE,
+    {"id": "C03-variable-comprehension-variable",
+     "title": "extract variable of an expression inside a comprehension that uses the comprehension's loop variable "
+              "moves it in front of the statement (NameError / value of an outer name)",
+     "replay": {"kind": "expression", "extract": "variable", "pos": "function", "params": ["a"], "source": _COMP_SRC,
+                "line": 2, "cols": [13, 18], "vecs": [[1], [0]], "class": "variable:comprehension-variable"}},
+    {"id": "C03-method-comprehension-variable",
+     "title": "one-line extract method of an expression inside a comprehension does not pass the comprehension's "
+              "loop variable to the new function (NameError, or an outer name of that spelling is passed)",
+     "replay": {"kind": "expression", "extract": "method", "pos": "function", "params": ["a"], "source": _COMP_SRC,
+                "line": 2, "cols": [13, 18], "vecs": [[1], [0]], "class": "method:comprehension-variable"}},
+]
+
+_LEAK_SRC = ("def f(a):\n    y = sum([j + 1 for j in range(a)])\n    z = 2 + sum([j * 2 for j in range(a)])\n"
+             "    return y + z\n")
+KNOWN_EXPR.append(
+    {"id": "C03-method-comprehension-variable-leaked",
+     "title": "one-line extract method whose selection contains a comprehension passes the comprehension's own loop "
+              "variable as an argument when a name of that spelling is stored earlier in the function (e.g. by an "
+              "earlier comprehension or a loop that never ran): NameError at the call",
+     "replay": {"kind": "expression", "extract": "method", "pos": "function", "params": ["a"], "source": _LEAK_SRC,
+                "line": 3, "cols": [8, 42], "vecs": [[1], [2]],
+                "class": "method:comprehension-variable-leaked-into-prewritten"}})
 
 SOUND_HOSTS = [
     # an inner loop whose else-clause continues the OUTER loop: every region that contains the else-clause but not
@@ -523,13 +569,24 @@ def write_findings():
         if k["defect"]:
             entries.append({"property": PROPERTY, "id": k["id"], "title": k["title"], "signature": obj["class"],
                             "replay": fn, "refuted_lemma": k["lemma"]})
-    fn = "findings/%s.json" % KNOWN_VARIABLE["id"]
-    with open(os.path.join(common.VERIF, fn), "w") as f:
-        json.dump(KNOWN_VARIABLE["replay"], f, indent=1)
-    entries.append({"property": PROPERTY, "id": KNOWN_VARIABLE["id"], "title": KNOWN_VARIABLE["title"],
-                    "signature": "variable:while-condition", "replay": fn})
+    for k in KNOWN_EXPR:
+        fn = "findings/%s.json" % k["id"]
+        with open(os.path.join(common.VERIF, fn), "w") as f:
+            json.dump(k["replay"], f, indent=1)
+        entries.append({"property": PROPERTY, "id": k["id"], "title": k["title"],
+                        "signature": k["replay"]["class"], "replay": fn})
     for k in S.KNOWN_SIMILAR:
         obj = S.known_obj(k)
+        if k.get("fixed"):
+            old = os.path.join(common.VERIF, "findings/%s.json" % k["id"])
+            if os.path.exists(old):
+                os.remove(old)
+            fn = "corpus/%s/%s.json" % (PROPERTY, k["corpus_name"])
+            obj["fixed_by"] = k["fixed"][0]
+            with open(os.path.join(common.VERIF, fn), "w") as f:
+                json.dump(obj, f, indent=1)
+            fixed.append("fixed: property=%s %s %s; replay %s" % (PROPERTY, k["fixed"][0], k["fixed"][1], fn))
+            continue
         fn = "findings/%s.json" % k["id"]
         with open(os.path.join(common.VERIF, fn), "w") as f:
             json.dump(obj, f, indent=1)
@@ -591,8 +648,11 @@ def run(ctx):
     drv = E.Driver()
     try:
         evaluate(ctx, drv, hosts, records)
+        VTERMS[:] = []
         expression_stream(ctx, drv, hosts, ctx.scale(6, 8))
+        variable_correspondence(ctx)
         similar_stream(ctx, drv, ctx.scale(40, 300))
+        wordcut_stream(ctx, drv, ctx.scale(4, 25))
     finally:
         drv.close()
     coq_eval(ctx, records)
@@ -627,6 +687,36 @@ def subexpressions(src):
     return res
 
 
+def uses_comprehension_variable(src, line, c0, c1):
+    """The selection lies inside a comprehension / generator expression and reads one of its loop variables."""
+    tree = ast.parse(src)
+    for n in ast.walk(tree):
+        if isinstance(n, (ast.ListComp, ast.GeneratorExp, ast.SetComp, ast.DictComp)) and n.lineno == line \
+                and n.col_offset <= c0 and c1 <= n.end_col_offset:
+            targets = {t.id for g in n.generators for t in ast.walk(g.target) if isinstance(t, ast.Name)}
+            for e in ast.walk(n):
+                if isinstance(e, ast.Name) and isinstance(e.ctx, ast.Load) and e.id in targets \
+                        and e.lineno == line and c0 <= e.col_offset and e.end_col_offset <= c1:
+                    return True
+    return False
+
+
+def contains_comprehension_with_leaked_variable(src, line, c0, c1):
+    """The selection contains a whole comprehension whose loop variable is spelled like a name stored on an earlier
+    line (loop target, earlier comprehension variable, assignment): it is in prewritten, the one-line reads finder
+    counts the comprehension's variable as a read, so it is passed although it may be unbound."""
+    tree = ast.parse(src)
+    comps = [n for n in ast.walk(tree) if isinstance(n, (ast.ListComp, ast.GeneratorExp, ast.SetComp, ast.DictComp))]
+
+    def targets(n):
+        return {t.id for g in n.generators for t in ast.walk(g.target) if isinstance(t, ast.Name)}
+    earlier = {n.id for n in ast.walk(tree) if isinstance(n, ast.Name) and isinstance(n.ctx, ast.Store) and n.lineno < line}
+    for n in comps:
+        if n.lineno == line and c0 <= n.col_offset and n.end_col_offset <= c1 and targets(n) & earlier:
+            return True
+    return False
+
+
 def in_while_test(src, line, c0, c1):
     for n in ast.walk(ast.parse(src)):
         if isinstance(n, ast.While):
@@ -635,6 +725,92 @@ def in_while_test(src, line, c0, c1):
                         and c1 <= e.end_col_offset:
                     return True
     return False
+
+
+VTERMS = []
+
+
+def variable_correspondence(ctx):
+    """rope's extract-variable results against the model ExtractVar.extract_variable (compared inside Coq)."""
+    if not VTERMS:
+        return
+    out = ctx.coq_file(HEADER + "From RopeVerif.C03 Require Import ExtractVar.\nDefinition vcases : list vcase := [\n%s].\n"
+                       "Eval vm_compute in (vmismatches vcases).\n" % ";\n".join(t for t, _ in VTERMS), name="variable_C03")
+    pairs = ctx.parse_pairs(out)
+    ctx.traces += len(VTERMS)
+    ctx.count("variable_results_compared_with_model", len(VTERMS))
+    for (i, code) in (pairs[0] if pairs else []):
+        obj = dict(VTERMS[i][1])
+        obj["broken"] = ("correspondence Runner.run_vcase (ExtractVar.extract_variable vs ExtractVariable); theorem "
+                         "C03_variable_partial no longer speaks about the code")
+        ctx.violation(obj, "C03: extract variable: rope's result differs from the model for columns %s of line %d\n%s" % (
+            obj["cols"], obj["line"], obj["source"]), no_input=True)
+    VTERMS[:] = []
+
+
+def stmt_root_expr(n):
+    if isinstance(n, (ast.Assign, ast.AugAssign, ast.Return)):
+        return n.value
+    if isinstance(n, ast.Expr) and isinstance(n.value, ast.Call) and n.value.args:
+        return n.value.args[0]
+    if isinstance(n, (ast.If, ast.While)):
+        return n.test
+    if isinstance(n, ast.For) and isinstance(n.iter, ast.Call) and n.iter.args:
+        return n.iter.args[0]
+    return None
+
+
+def expr_path(root, line, c0, c1):
+    """Path (list of 0/1) from the statement's expression to the selected node through binary operators /
+    comparisons; None when the selection is not reached that way (e.g. it lies inside a comprehension)."""
+    path, n = [], root
+    while True:
+        if n.lineno == line and n.col_offset == c0 and n.end_col_offset == c1:
+            return path
+        if isinstance(n, ast.BinOp):
+            kids = [n.left, n.right]
+        elif isinstance(n, ast.Compare) and len(n.comparators) == 1:
+            kids = [n.left, n.comparators[0]]
+        else:
+            return None
+        for d, k in enumerate(kids):
+            if k.lineno == line and k.col_offset <= c0 and c1 <= k.end_col_offset:
+                path.append(d)
+                n = k
+                break
+        else:
+            return None
+
+
+def variable_case_term(h, line, c0, c1, new_source):
+    """Coq term comparing rope's extract-variable result with the model ExtractVar.extract_variable; None when
+    the case is outside the modelled shape."""
+    tree = ast.parse(h.src)
+    pos = h.host["pos"]
+    nodes = tree.body if pos == "module" else G.find_defs(tree, pos)["f"].body
+    target = None
+    for n in ast.walk(ast.Module(body=nodes, type_ignores=[])):
+        if isinstance(n, ast.stmt) and n.lineno == line and stmt_root_expr(n) is not None:
+            target = n
+            break
+    if target is None:
+        return None
+    p = expr_path(stmt_root_expr(target), line, c0, c1)
+    if p is None:
+        return None
+    for path, i, j, first, last in h.regions():
+        if j == i + 1 and first == line:
+            break
+    else:
+        return None
+    try:
+        t2 = ast.parse(new_source)
+        nodes2 = t2.body if pos == "module" else G.find_defs(t2, pos)["f"].body
+        body2 = G.a_block(nodes2, None)
+    except (G.Unsupported, SyntaxError, KeyError):
+        return "BAD"
+    return "{| v_loc := %s; v_path := [%s]; v_name := %s; v_result := %s |}" % (
+        h.loc_term(path, i, j), "; ".join("true" if d else "false" for d in p), G.g_var("v"), G.g_block(body2, None))
 
 
 def expression_stream(ctx, drv, hosts, per_host):
@@ -659,6 +835,13 @@ def expression_stream(ctx, drv, hosts, per_host):
                     continue
                 if before is None:
                     before = [E.run_program(h.src, pos, h.host["params"], v) for v in vecs]
+                if kind == "variable":
+                    t = variable_case_term(h, line, c0, c1, r["new"])
+                    if t == "BAD":
+                        ctx.violation(dict(obj, broken="result of extract variable is outside the Flow fragment"),
+                                      "C03: extract variable result not abstractable\n" + r["new"], no_input=True)
+                    elif t is not None:
+                        VTERMS.append((t, obj))
                 after = [E.run_program(r["new"], pos, h.host["params"], v) for v in vecs]
                 fail = first_difference(vecs, before, after)
                 if fail:
@@ -667,6 +850,100 @@ def expression_stream(ctx, drv, hosts, per_host):
                                       kind, c0, c1, line, fail, h.src))
             if ctx.too_many(8):
                 return
+
+
+# ----------------------------------------------------------------------------- selections that cut words
+WORD_POOL = ["max_count", "na\u00efve2", "a_1", "total_sum", "_x", "x_", "a1b", "\u03c0r2", "count", "n0"]
+
+
+def wordcut_sources(rng, n):
+    res = []
+    for _ in range(n):
+        p1, p2, p3, loc = rng.sample(WORD_POOL, 4)
+        num = rng.choice(["12345", "70", "1_000"])
+        res.append("def f(%s, %s, %s):\n    %s = %s + %s * %s\n    print(%s - %s)\n    return %s + %s\n" % (
+            p1, p2, p3, loc, p1, p2, p3, loc, p1, loc, num))
+    return res
+
+
+def wordcut_stream(ctx, drv, nsrc):
+    """One-line selections whose borders cut identifiers / numbers (at letters, digits, underscores, non-ASCII
+    letters): every one must be refused with RefactoringError and nothing may change. The on-a-word condition
+    itself is compared with the model coq/C03/OneLine.v inside Coq."""
+    import io
+    import tokenize
+    from rope.base.exceptions import RefactoringError
+    X = drv.X
+    terms = []
+    fixed = ["def f(max_count, b):\n    r = max_count + b * 2\n    return r + 12345\n"]
+    for src in fixed + wordcut_sources(ctx.rng, nsrc):
+        lines = src.split("\n")
+        toks = [t for t in tokenize.generate_tokens(io.StringIO(src).readline)
+                if t.type in (tokenize.NAME, tokenize.NUMBER) and t.start[0] >= 2]
+        offs = [0]
+        for l in lines:
+            offs.append(offs[-1] + len(l) + 1)
+        cands = []
+        for t in toks:
+            row, c0, c1 = t.start[0], t.start[1], t.end[1]
+            inner = list(range(c0 + 1, c1))
+            bounds = sorted({tt.start[1] for tt in toks if tt.start[0] == row} | {tt.end[1] for tt in toks if tt.start[0] == row})
+            for i in inner:
+                for b in [c0] + [x for x in bounds if x > i][:2]:
+                    if b != i:
+                        cands.append((row, min(i, b), max(i, b), True))
+                for j in inner:
+                    if i < j:
+                        cands.append((row, i, j, True))
+            if not (row == 2 and c0 == 4):                          # (the assignment target is not an expression)
+                cands.append((row, c0, c1, False))                  # the whole token: not a cut
+        ctx.rng.shuffle(cands)
+        for (row, c0, c1, cut) in cands[:ctx.scale(25, 60)]:
+            start, end = offs[row - 1] + c0, offs[row - 1] + c1
+            for kind in ("variable", "method"):
+                drv.set_source(src)
+                cls = X.ExtractVariable if kind == "variable" else X.ExtractMethod
+                refused, msg, new = False, "", None
+                try:
+                    ref = cls(drv.project, drv.res, start, end)
+                    st, en = ref.start_offset, ref.end_offset
+                    new = ref.get_changes("nv").changes[0].new_contents
+                except RefactoringError as e:
+                    refused, msg = True, str(e)
+                ctx.case(("wordcut", src, start, end, kind), nontrivial=cut)
+                ctx.count("wordcut:%s:%s" % ("cuts-a-word" if cut else "whole-token", "refused" if refused else "accepted"))
+                obj = {"kind": "wordcut", "extract": kind, "source": src, "start": start, "end": end}
+                if cut and not refused:
+                    ctx.violation(dict(obj, observed="accepted", result=new),
+                                  "C03: extract %s of %r (a selection that cuts a word) is accepted instead of refused\n%s"
+                                  % (kind, src[start:end], src))
+                elif not refused and not cut:
+                    if E.run_program(src, "function", ["p", "q", "r"], [3, 4, 5]) != E.run_program(new, "function", ["p", "q", "r"], [3, 4, 5]):
+                        ctx.violation(dict(obj, observed="behaviour", result=new),
+                                      "C03: extract %s of the token %r changes behaviour\n%s" % (kind, src[start:end], src))
+                alnum = sorted({ord(ch) for ch in src if ch.isalnum()})
+                terms.append("{| w_src := %s; w_alnum := %s; w_start := %d; w_stop := %d; w_refused := %s; w_word_message := %s |}" % (
+                    g_text_(src), "[" + "; ".join("%d%%N" % a for a in alnum) + "]", st, en,
+                    "true" if refused else "false", "true" if msg == "Should extract complete statements." else "false"))
+                if ctx.too_many(8):
+                    return
+    out = ctx.coq_file("From Coq Require Import List NArith Bool.\nImport ListNotations.\n"
+                       "From RopeVerif.C03 Require Import OneLine.\nDefinition wcases : list wcase := [\n%s].\n"
+                       "Eval vm_compute in (wmismatches wcases).\nEval vm_compute in (count_on_word wcases).\n"
+                       % ";\n".join(terms), name="wordcut_C03")
+    pairs = ctx.parse_pairs(out)
+    nums = ctx.parse_nums(out)
+    ctx.extra["wordcut_cases_on_a_word"] = nums[-1][0] if nums else 0
+    ctx.traces += len(terms)
+    for (i, code) in (pairs[0] if pairs else []):
+        ctx.violation({"kind": "wordcut-model", "case": terms[i][:400],
+                       "broken": "correspondence OneLine.run_wcase (region_on_a_word vs _is_region_on_a_word); theorem "
+                                 "C03_word_cut_refusal no longer speaks about the code"},
+                      "C03: on-a-word condition: model and rope disagree (code %d)" % code, no_input=True)
+
+
+def g_text_(s):
+    return "[" + "; ".join("%d%%N" % ord(c) for c in s) + "]"
 
 
 # ----------------------------------------------------------------------------- similar / global_ / kinds
@@ -688,6 +965,8 @@ def similar_stream(ctx, drv, nspecs):
                 if kind == "variable" and opts.get("global_") and o[0] != "module" and ctx.rng.random() < 0.8:
                     continue          # always-failing recorded defect: a sample is enough
                 obj, r, fail = S.run_case(drv, spec, si, kind, opts)
+                if fail:
+                    obj["observed"] = fail
                 obj["class"] = S.structural_signature(obj)
                 flags = "+".join(sorted(k if v is True else "%s=%s" % (k, v) for k, v in opts.items()))
                 ctx.case(("similar", source, si, kind, flags), nontrivial=not r["refused"])
@@ -706,6 +985,18 @@ def replay(ctx, obj):
     """True = the property fails on the recorded input (behaviour differs, result does not parse, or crash)."""
     if obj.get("kind") == "similar":
         return S.replay(obj)
+    if obj.get("kind") == "wordcut":
+        drv = E.Driver()
+        try:
+            drv.set_source(obj["source"])
+            cls = drv.X.ExtractVariable if obj["extract"] == "variable" else drv.X.ExtractMethod
+            try:
+                cls(drv.project, drv.res, obj["start"], obj["end"]).get_changes("nv")
+                return True
+            except Exception:
+                return False
+        finally:
+            drv.close()
     drv = E.Driver()
     try:
         if obj.get("kind") == "expression":
@@ -730,10 +1021,17 @@ def replay(ctx, obj):
 
 
 def signature(obj):
+    if obj.get("kind") == "wordcut":
+        return "wordcut"
     if obj.get("kind") == "similar":
         return S.structural_signature(obj)
     if obj.get("kind") == "expression":
         # structural: extract variable of (part of) the condition of a while loop
+        if uses_comprehension_variable(obj["source"], obj["line"], *obj["cols"]):
+            return "%s:comprehension-variable" % obj.get("extract")
+        if obj.get("extract") == "method" and contains_comprehension_with_leaked_variable(
+                obj["source"], obj["line"], *obj["cols"]):
+            return "method:comprehension-variable-leaked-into-prewritten"
         if obj.get("extract") == "variable" and in_while_test(obj["source"], obj["line"], *obj["cols"]):
             return "variable:while-condition"
         return "expression:other"
